@@ -163,6 +163,8 @@ impl ImageBuilder {
             tree.expect("Failed to parse SVG")
         };
 
+        #[cfg(fast_qr_verif)]
+        crate::verif::point("img.tree");
         let fit_to = match (self.fit_width, self.fit_height) {
             (Some(w), Some(h)) => usvg::FitTo::Size(w, h),
             (Some(w), None) => usvg::FitTo::Width(w),
@@ -183,6 +185,8 @@ impl ImageBuilder {
         )
         .unwrap();
 
+        #[cfg(fast_qr_verif)]
+        crate::verif::point("img.render");
         pixmap
     }
 
